@@ -256,7 +256,17 @@ def run(chk, prog):
         r4 += 1
     # all (index, weight) paths covered: the _hinfo row is written on every path of the point loop
     hs = usm.hinfo_stores
-    chk.check(len(hs) >= 2, "R4", A.loc(usm.fn, {"line": usm.fn["line"]}),
+    # relative to the row loop, either one store runs unconditionally, or two stores sit under the two outcomes of one condition
+    def rel_guards(a_):
+        row = a_.loops[0].node["id"] if a_.loops else None
+        out_ = []
+        for g_, pol_ in a_.guards:
+            if isinstance(g_, dict) and g_.get("k") not in ("SwitchCase", "Catch") and row is not None and g_.get("line", 0) >= a_.loops[0].node["line"]:
+                out_.append((g_, pol_))
+        return out_
+    rg = [rel_guards(a_) for a_ in hs]
+    covered = any(not r_ for r_ in rg) or any(len(r1) == 1 and len(r2) == 1 and I.guards_complementary(r1[0], r2[0]) for r1 in rg for r2 in rg)
+    chk.check(covered, "R4", A.loc(usm.fn, {"line": usm.fn["line"]}),
               "_hinfo is written on the in-range and on the out-of-range path (%d stores)" % len(hs), "updateSM:hinfo-paths")
     from . import kickmodel as K
     kap = K.KickApply(prog)
